@@ -48,6 +48,7 @@ type cronGen struct {
 	mode   string
 	stats  map[string]int
 	scrib  bool
+	workIds []string // work ids to draw from (pipeline harness); default: w / w2 / work
 	params []def.TaskUpdateParam
 	exprs  []any
 }
@@ -56,6 +57,11 @@ func (g *cronGen) metaFor() (map[string]string, bool) {
 	// mostly no mutators; sometimes deterministic ones; rarely undecodable
 	switch g.r.Intn(12) {
 	case 0:
+		if g.mode == "vsys" {
+			// under a frozen virtual clock a schedule-at-now row is due again the moment it is popped: the pipeline
+			// would (rightly) never come to rest
+			return nil, true
+		}
 		return map[string]string{mutator.LabelScheduleAtNow: "1"}, true
 	case 1:
 		v := []string{"1s", "0", "-2s", "1500ms"}[g.r.Intn(4)]
@@ -77,7 +83,11 @@ func (g *cronGen) newEntry(likeEid int) int {
 		param = g.params[likeEid].Clone()
 		expr = g.exprs[likeEid]
 	} else {
-		param.WorkId = option.Some([]string{"w", "w", "w2", "work"}[g.r.Intn(4)])
+		wids := g.workIds
+		if wids == nil {
+			wids = []string{"w", "w", "w2", "work"}
+		}
+		param.WorkId = option.Some(wids[g.r.Intn(len(wids))])
 		if g.r.Intn(2) == 0 {
 			param.Priority = option.Some(g.r.Intn(3) - 1)
 		}
@@ -117,7 +127,11 @@ func (g *cronGen) newEntry(likeEid int) int {
 		panic(err)
 	}
 	t := start
-	for i := 0; i < 48; i++ {
+	chain := 48
+	if g.mode == "vsys" {
+		chain = 128
+	}
+	for i := 0; i < chain; i++ {
 		nx := sched.Next(t)
 		if !nx.After(t) {
 			panic("schedule not increasing")
